@@ -23,13 +23,14 @@ static const char *const fault_names[] = { "thread_preempt", "irq_inject", "irq_
 enum { P_FULL_WITH_CLAIMS_IN_FLIGHT, P_TWO_CLAIMS_OVERLAP, P_SEND_OUT_OF_CLAIM_ORDER, P_HELD_SEVERAL,
        P_WRAPPED, P_DEPTH1, P_DEPTH32, P_RECEIVE_BLOCKED, P_STALLED_BETWEEN_CLAIM_AND_SEND,
        P_MODE_THR, P_MODE_IRQ, P_REFUSED_WHILE_OTHER_FAILING, P_CONSERVATION_CHECKED, P_LONG_LIVED,
-       P_OVER_256_CLAIMS };
+       P_OVER_256_CLAIMS, P_BIG_MESSAGES };
 static const char *const probe_names[] = {
 	"claim_refused_while_other_claims_in_flight", "two_claims_overlapped",
 	"sends_out_of_claim_order", "receiver_held_several", "slot_index_wrapped", "depth_1",
 	"depth_32", "receive_found_oldest_unsent", "sender_preempted_between_claim_and_send",
 	"mode_threads", "mode_irq", "claim_refused_while_another_refusal_in_flight",
-	"conservation_checked_at_quiescence", "long_lived_queue", "more_than_256_claims", NULL };
+	"conservation_checked_at_quiescence", "long_lived_queue", "more_than_256_claims",
+	"message_size_255_to_8191", NULL };
 
 #define MAXDEPTH 32
 #define MAXSENDERS 4
@@ -38,6 +39,7 @@ static const char *const probe_names[] = {
 static messageq_t *mq;
 static uint8_t *store;
 static uint32_t depth, msg_len;
+static uint32_t pay_len;	/* bytes of each message the senders write and the receiver checks (at most 24) */
 
 enum { S_FREE, S_CLAIMED, S_SENT, S_RECEIVED };
 static struct {
@@ -83,7 +85,7 @@ static int last_sent_g;
 
 static void payload_fill(uint8_t *buf, uint8_t sender, uint16_t seq)
 {
-	for (uint32_t i = 0; i < msg_len; i++)
+	for (uint32_t i = 0; i < pay_len; i++)
 		buf[i] = (uint8_t)(0x11 * (sender + 1) + 7 * seq + 31 * i + (i == 0 ? sender : 0));
 }
 
@@ -205,7 +207,7 @@ static bool sender_round(uint8_t sender)
 	snd[sender].seq++;
 	uint32_t sw0 = simrt_switches();
 	simrt_point();
-	shim_copy_in(p, buf, msg_len);		/* plain stores, visible to the runtime */
+	shim_copy_in(p, buf, pay_len);		/* plain stores, visible to the runtime */
 	simrt_point();
 	if (simrt_switches() != sw0)
 		sim_probe(P_STALLED_BETWEEN_CLAIM_AND_SEND);
@@ -246,7 +248,7 @@ static bool receiver_step(void)
 	int g = n_received;			/* messages must arrive in claim order */
 	uint8_t got[64], want[64];
 	simrt_point();
-	shim_copy_out(got, p, msg_len);		/* plain loads, visible to the runtime */
+	shim_copy_out(got, p, pay_len);		/* plain loads, visible to the runtime */
 	sim_ev("recv.ret", g, s, got[0]);
 	if (s != (uint32_t)g % depth || slot[s].state != S_SENT) {
 		const char *st = slot[s].state == S_FREE ? "free" : slot[s].state == S_CLAIMED ?
@@ -260,11 +262,11 @@ static bool receiver_step(void)
 	if (claim[g].received)
 		sim_fail(NULL, "DUPLICATE", "claim number %d was received twice", g);
 	payload_fill(want, claim[g].sender, claim[g].seq);
-	if (memcmp(got, want, msg_len)) {
+	if (memcmp(got, want, pay_len)) {
 		/* somebody else's intact payload, or garbage? */
 		for (uint32_t k = 0; k < n_claims; k++) {
 			payload_fill(want, claim[k].sender, claim[k].seq);
-			if (!memcmp(got, want, msg_len))
+			if (!memcmp(got, want, pay_len))
 				sim_fail(NULL, "ORDER", "receive number %d delivered the payload of claim number %u", g, k);
 		}
 		sim_fail(NULL, "CORRUPT", "receive number %d (sender %u, sequence %u) delivered bytes nobody wrote for it",
@@ -334,6 +336,13 @@ static void run(void)
 	uint32_t r = sim_choose(12);
 	depth = r < 8 ? 1 + r : r < 10 ? 1 + sim_choose(4) : r == 10 ? 32 : 9 + sim_choose(23);
 	msg_len = 1 + sim_choose(24);
+	if (sim_chance(1, 25)) {
+		/* large messages (only their first 24 bytes carry the stamp): slot arithmetic on big offsets */
+		static const uint16_t big[] = { 255, 1000, 2183, 3000, 4000, 4096, 5000, 7000, 8191 };
+		msg_len = big[sim_choose(9)];
+		sim_probe(P_BIG_MESSAGES);
+	}
+	pay_len = msg_len < 24 ? msg_len : 24;
 	nsenders = 1 + sim_choose(MAXSENDERS);
 	hold_max = sim_choose(3) ? 0 : sim_choose(depth + 1);
 	uint32_t total = depth * (1 + sim_choose(3)) + sim_choose(4);
